@@ -1068,3 +1068,96 @@ func E2EQueue(args []string) {
 		os.Exit(3)
 	}
 }
+
+// ---- dumb-tcp sessions (C09: the receiver dials the TCP addresses the sender announced) --------------
+
+// E2EDumbTCP: real `thru host <size> --dumb-tcp` and `thru join --dumb-tcp` sessions on this host (which has
+// several local addresses, all announced by the sender). Both processes must finish with status 0 in
+// bounded time: the two ends must end up on the same TCP connection.
+func E2EDumbTCP(args []string) {
+	fs := flag.NewFlagSet("e2e-dumbtcp", flag.ExitOnError)
+	n := fs.Int("n", 12, "sessions (over all shards)")
+	shard := fs.Int("shard", 0, "shard")
+	shards := fs.Int("shards", 1, "shards")
+	thruserv := fs.String("thruserv", "", "thruserv binary")
+	thru := fs.String("thru", "", "thru binary")
+	fs.Parse(args)
+	srv, err := startServer(*thruserv, nil, unlimited...)
+	if err != nil {
+		fmt.Fprintln(os.Stderr, err)
+		os.Exit(3)
+	}
+	defer srv.stop()
+	res := &Result{Extra: map[string]any{}}
+	outcomes := map[string]int{}
+	trouble := 0
+	for i := 0; i < *n; i++ {
+		if i%*shards != *shard {
+			continue
+		}
+		work, err := os.MkdirTemp("", "vh-dumbtcp-")
+		if err != nil {
+			trouble++
+			continue
+		}
+		func() {
+			defer os.RemoveAll(work)
+			size := []string{"200K", "3M", "64K", "1M"}[i%4]
+			host, err := startChild(*thru, []string{"host", size, "--dumb-tcp", "--server-url", srv.url, "--stun-server", "stun:127.0.0.1:9"},
+				filepath.Join(work, "host.trace"), nil, "")
+			if err != nil {
+				trouble++
+				return
+			}
+			defer host.kill()
+			code := ""
+			for k := 0; k < 400 && code == ""; k++ {
+				txt := host.out.String()
+				if j := strings.Index(txt, "Join Code: "); j >= 0 {
+					rest := txt[j+len("Join Code: "):]
+					if e := strings.IndexAny(rest, " \n"); e > 0 {
+						code = rest[:e]
+					}
+				}
+				if code == "" {
+					time.Sleep(20 * time.Millisecond)
+				}
+			}
+			if code == "" {
+				trouble++
+				return
+			}
+			t0 := time.Now()
+			join, err := startChild(*thru, []string{"join", code, "--dumb-tcp", "--server-url", srv.url, "--stun-server", "stun:127.0.0.1:9"},
+				filepath.Join(work, "join.trace"), nil, "y\n")
+			if err != nil {
+				trouble++
+				return
+			}
+			defer join.kill()
+			rc, done := join.wait(20 * time.Second)
+			res.Behaviours++
+			res.Steps++
+			hostTxt := host.out.String()
+			replay := map[string]any{"session": i, "size": size, "join_exit": rc, "join_returned": done, "seconds": time.Since(t0).Seconds(),
+				"join_tail": tailText(join.out.String(), 300), "host_tail": tailText(hostTxt, 300)}
+			switch {
+			case !done:
+				outcomes["join never finished"]++
+				res.AddViolation(map[string]any{"prop": "C09", "kind": "dumb_tcp_session_hangs_although_reachable"}, replay)
+			case rc != 0 || strings.Contains(hostTxt, "transfer failed"):
+				outcomes["failed"]++
+				res.AddViolation(map[string]any{"prop": "C09", "kind": "dumb_tcp_session_fails_although_reachable"}, replay)
+			default:
+				outcomes["ok"]++
+			}
+		}()
+	}
+	res.Distinct = res.Behaviours
+	res.Extra["outcomes"] = outcomes
+	res.Extra["trouble"] = trouble
+	res.Print()
+	if trouble > res.Behaviours/3+1 {
+		os.Exit(3)
+	}
+}
